@@ -12,6 +12,16 @@ using namespace vh;
 
 namespace {
 
+    std::vector<std::string> const c08_focus = {"counting_semaphore", "sliding_semaphore", "condition_variable::wait", "condition_variable::notify_one", "execution_agent::do_yield", "set_thread_state", "default_agent"};
+    struct FocusInit
+    {
+        FocusInit()
+        {
+            for (auto& s : c08_focus) focus_patterns().push_back(s);
+        }
+    } focus_init;
+
+
     enum
     {
         OP_RELEASE = 1,      // a = n
@@ -211,6 +221,7 @@ namespace {
         if (!ctx.program_from_replay) ctx.program = gen_counting(ctx, nparties, binary);
         sim_config sc = draw_sim_config(ctx, 60000, FAULT_STALL | FAULT_CLOCKJUMP | FAULT_TRYFAIL | FAULT_SPURIOUS);
         begin_sim(ctx, sc);
+        focus_select(ctx, c08_focus, 3);
         g_dump_hook = +[]() -> std::string {
             return pk::dump() +
                 sfmt(" | sem model: initial=%lld released=%lld acquired=%lld blocked=%d",
@@ -270,6 +281,7 @@ namespace {
         int64_t rel_os = ctx.params.set("c08.releaser_os", r.chance(1, 3) ? 1 : 0);
         sim_config sc = draw_sim_config(ctx, 40000, FAULT_STALL | FAULT_CLOCKJUMP);
         begin_sim(ctx, sc);
+        focus_select(ctx, c08_focus, 3);
         g_dump_hook = pk::dump;
         pk::start(ctx);
         static pika::counting_semaphore<> sem(0);
@@ -352,6 +364,7 @@ namespace {
         }
         sim_config sc = draw_sim_config(ctx, 50000, FAULT_STALL);
         begin_sim(ctx, sc);
+        focus_select(ctx, c08_focus, 3);
         g_dump_hook = pk::dump;
         pk::start(ctx);
         static pika::sliding_semaphore sem(maxdiff, 0);
